@@ -305,7 +305,7 @@ def swap_representative(trace, geo):
     new = None
     for e in tr:
         if j is None and e.get("e") == "Refine":
-            for idx in range(e["nkprev"], len(e["kl"])):
+            for idx in range(e.get("nkprev", len(e["kl"])), len(e["kl"])):
                 c = (e["kl"][idx][0], e["kl"][idx][1])
                 others = sorted(star_of(geo, c) - {c})
                 if others:
@@ -330,7 +330,13 @@ def selftest_binding(ctx, geo):
         ctx.traces_off = True
         return
     if errs or w.problems or w.errors:
-        # run() fails on the simplest scenario: let the ordinary path report it
+        # run() fails on the simplest scenario: that is a finding about run(), not about the binding
+        Batch(ctx).add(geo, 2, w, ev, dict(origin="selftest scenario", ops=summarize_ops(ops)))
+        return
+    i1 = next((i for i, e in enumerate(ev) if e["e"] == "Eval" and e.get("k") == 1), None)
+    if i1 is None or not any(e["e"] == "UpdateIntegral" and e.get("coef") for e in ev):
+        ctx.skipped_private.append("hook events Eval / UpdateIntegral of the simplest run")
+        ctx.traces_off = True
         return
     bad1 = copy.deepcopy(ev)
     for e in bad1:
@@ -338,19 +344,28 @@ def selftest_binding(ctx, geo):
             e["coef"]["coef"][0] += 1
             break
     bad2 = [e for e in ev if not (e["e"] == "Eval" and e.get("k") == 1)]
-    i1 = next(i for i, e in enumerate(ev) if e["e"] == "Eval" and e.get("k") == 1)
     bad3 = ev[:i1 + 1] + [copy.deepcopy(ev[i1])] + ev[i1 + 1:]
     swapped = swap_representative(ev, geo)
     traces = [ev, bad1, bad2, bad3] + ([swapped] if swapped is not None else [])
     stats, v = RT.validate(traces, geo, 2, ctx.tname("selftest"))
-    ok = (v[0]["ok"] and v[0]["level"] == "strict" and not v[1]["ok"] and v[2]["ok"] and v[2]["level"] == "property"
-          and not v[3]["ok"] and (swapped is None or (v[4]["ok"] and v[4]["level"] == "property")))
+    # (on a tree whose internals differ from the model of the code the good trace itself is only accepted on the
+    # property level: that is information, not a failure of the binding)
+    if not v[0]["ok"]:
+        # the real run() of the simplest scenario is rejected on the property level: a finding, not a binding failure
+        rep.violation(f"trace:{v[0].get('clause', '?')}", dict(why=v[0]["why"], level=v[0].get("level"), geometry=geo.key(), nstep=2,
+                                                               scenario=dict(origin="selftest scenario", ops=summarize_ops(ops)),
+                                                               trace_prefix=v[0].get("trace", ev)[:v[0]["at"] + 1][-4:]))
+        return
+    ok = (not v[1]["ok"] and v[2]["ok"] and not v[3]["ok"] and (swapped is None or v[4]["ok"]))
     if not ok:
         raise MachineryError(f"binding self-test failed: {[dict(ok=x['ok'], level=x.get('level'), why=x['why']) for x in v]}")
-    rep.part("binding_selftest", good_accepted_strict=True, corrupted_coefficient_rejected=v[1]["why"],
+    if v[0].get("repr"):
+        r = v[0]["repr"]
+        ctx.repr_diff[f"{r.get('event')}:{r.get('clause') or 'not enabled'}"] += 1
+    rep.part("binding_selftest", good_accepted_on_level=v[0]["level"], corrupted_coefficient_rejected=v[1]["why"],
              duplicated_evaluation_rejected=v[3]["why"],
-             dropped_loop_event="rejected on the strict level, accepted on the property level",
-             other_orbit_representative=("rejected on the strict level, accepted on the property level" if swapped is not None else "not applicable"))
+             dropped_loop_event=f"accepted on the {v[2]['level']} level" + (" (rejected on the strict level)" if v[2]["level"] == "property" else ""),
+             other_orbit_representative=(f"accepted on the {v[4]['level']} level (rejected on the strict level)" if swapped is not None else "not applicable"))
 
 
 def large_worlds(ctx, rng):
